@@ -9,15 +9,17 @@ import (
 )
 
 // Yield points for property C08 (forced schedules). verifSched(p, point) stands in front of each
-// statement of Parser.run (points 10-14 in the loop, 20-25 after it, 29 when run returns) and of
+// statement of Parser.run (points 10-14 in the loop, 20-25 after it, 29 when run returns, 19 deferred) and of
 // the Escape-timer callback (30-34, 39 when it has returned). VerifSchedHook, when set, is called
 // at every point: a verification harness parks the calling goroutine there and releases it one
 // statement at a time, so that a chosen interleaving of the callback with the run loop is replayed
 // deterministically. Without a hook nothing happens (and nothing is recovered); without the build
 // tag verifSched is an empty function.
 //
-// Point 39 is a deferred call: when a hook is installed it also reports a panic of the callback
-// (a send on the closed channel) to the hook instead of taking the process down.
+// Points 39 and 19 are deferred calls (the callback / run has returned): when a hook is installed
+// they also report a panic of that goroutine (a send on the closed channel, a nil exit function, an
+// index out of range in an action) to the hook instead of taking the process down, so that a harness
+// can name the input that caused it.
 var VerifSchedHook func(p *Parser, point int, panicked any)
 
 func verifSched(p *Parser, point int) {
@@ -26,7 +28,7 @@ func verifSched(p *Parser, point int) {
 		return
 	}
 	var pv any
-	if point == 39 {
+	if point == 39 || point == 19 {
 		pv = recover()
 	}
 	h(p, point, pv)
